@@ -350,15 +350,18 @@ WritePicardHs(t) ==                                                        \* pi
           Col(t, k, t_gene), Col(t, k, t_gc), Col(t, k, t_depth), AnyCell>>]  \* depth / mean(depth): not modelled
 
 (* ================================================================= A-layer: readers ======== *)
+Unsigned(s) == IF s # <<>> /\ s[1] \in {ch_plus, ch_minus} THEN Tail(s) ELSE s
 RawLine(fields) == JoinWith(fields, ch_tab)
 IsBlankLine(fields) == AllChars(RawLine(fields), IsSpace)
 NonBlank(L) == SelectSeq(L, LAMBDA f : ~IsBlankLine(f))
 (* pandas.read_csv column inference on the tokens of one column *)
 NumOrNA(tok) == IsDecimalText(tok) \/ tok \in NAWords
-InferKind(toks) == IF toks # <<>> /\ \A k \in 1..Len(toks) : IsIntText(toks[k]) THEN "i"
+AnyIntText(tok) == IsNatText(Unsigned(tok))                   \* an integer of any size (pandas: int64)
+InferKind(toks) == IF toks # <<>> /\ \A k \in 1..Len(toks) : AnyIntText(toks[k]) THEN "i"
                    ELSE IF toks # <<>> /\ \A k \in 1..Len(toks) : NumOrNA(toks[k]) THEN "f"
                    ELSE "s"
-ParseAs(kind, tok) == CASE kind = "i" -> ICell(IntVal(tok))
+ParseAs(kind, tok) == CASE kind = "i" -> IF IsIntText(tok) THEN ICell(IntVal(tok))
+                                         ELSE FCell(ToDec(ParseDecimal(tok)))     \* beyond 32 bits: carried as its decimal
                         [] kind = "f" -> IF tok \in NAWords THEN NACell ELSE FCell(ToDec(ParseDecimal(tok)))
                         [] OTHER      -> IF tok \in NAWords THEN NACell ELSE SCell(tok)
 FieldOr(f, j) == IF j <= Len(f) THEN f[j] ELSE <<>>
@@ -717,7 +720,6 @@ Holds(c, r) == Verdict(r)[c]
 
 (* ================================================================= premise ================= *)
 WordOrDot(c) == IsWord(c) \/ c = ch_dot
-Unsigned(s) == IF s # <<>> /\ s[1] \in {ch_plus, ch_minus} THEN Tail(s) ELSE s
 NumberLike(s) == \/ IsDecimalText(s) \/ LowerSeq(Unsigned(s)) \in InfWordsLower \/ s \in NAWords \/ s \in BoolWords
                  \/ (AnyChar(s, IsDigit) /\ AllChars(s, LAMBDA c : IsDigit(c) \/ c \in {ch_dot, 101, 69}))
 (* chromosome names: letters, digits, underscores, dots, starting with a letter/digit/underscore; a name that *)
@@ -735,7 +737,7 @@ FloatOK(c) == /\ c[2] \in {0, 1}
                  \/ /\ Len(c[4]) \in 1..17 /\ \A k \in 1..Len(c[4]) : c[4][k] \in 0..9
                     /\ c[4][1] # 0 /\ c[4][Len(c[4])] # 0 /\ c[3] \in -300..300     \* normal doubles
 (* %.6g prints the float as an integer text ("3", "-0", "120000"), which pandas reads back as an integer *)
-PrintsAsInt(c) == c[4] = <<>> \/ \A x \in Round6Set(CDec(c)) : x.e \in 0..5 /\ Len(x.d) <= x.e + 1
+PrintsAsInt(c) == c[4] = <<>> \/ \E x \in Round6Set(CDec(c)) : x.e \in 0..5 /\ Len(x.d) <= x.e + 1   \* (at a tie: may)
 (* not claimed: a -0.0 in a float column whose values all print as integers -- the column is re-read as int64, *)
 (* the -0.0 becomes 0 and the second file says "0" where the first said "-0" (numbers equal, bytes not)         *)
 NegZeroLost(t, j) == /\ \E k \in 1..NRows(t) : t.rows[k][j] = <<"f", 1, 0, <<>>>>
